@@ -307,7 +307,8 @@ func (s *seq) NumMutationsComparedToReferenceSequence(alphabet int, refseq Seque
 				return
 			}
 		} else {
-			eq = (s.sequence[i] == refseq.SequenceChar()[i])
+			// X in the reference is compatible with any amino acid (as N is for nucleotides)
+			eq = (s.sequence[i] == refseq.SequenceChar()[i]) || (alphabet == AMINOACIDS && refseq.SequenceChar()[i] == ALL_AMINO)
 		}
 		if s.SequenceChar()[i] != GAP && s.SequenceChar()[i] != all && !eq {
 			nummutations++
@@ -365,7 +366,8 @@ func (s *seq) listMutationsComparedToReferenceSequence(alphabet int, refseq Sequ
 				return
 			}
 		} else {
-			eq = (s.sequence[i] == refseqchar[i])
+			// X in the reference is compatible with any amino acid (as N is for nucleotides)
+			eq = (s.sequence[i] == refseqchar[i]) || (alphabet == AMINOACIDS && refseqchar[i] == ALL_AMINO)
 		}
 
 		if refseqchar[i] == GAP {
